@@ -160,7 +160,8 @@ class Thermal(_Simu):
         else:
             v = np.zeros_like(u)
 
-        self._Set_solutions(self.problemType, u, v)
+        # `a` too: after a switch to an iteration of another mesh the old vector has the wrong size
+        self._Set_solutions(self.problemType, u, v, np.zeros_like(u))
 
         return results
 
